@@ -133,7 +133,7 @@ func encode(proto string, isReq bool, pid int, key int, st *encState) []byte {
 		fr = append(fr, be32(len(pl))...)
 		fr = append(fr, pl...)
 		return append(fr, 0xCE)
-	case "kafka", "kafkadesc":
+	case "kafka", "kafkadesc", "kafkaslack":
 		if proto == "kafkadesc" {
 			key = 100000 - key // correlation ids that go DOWN from one request to the next
 		}
@@ -153,6 +153,11 @@ func encode(proto string, isReq bool, pid int, key int, st *encState) []byte {
 			body = append(body, kstr(mark)...)
 			body = append(body, be32(9092)...)
 			body = append(body, be32(0)...)
+		}
+		if proto == "kafkaslack" {
+			// bytes inside the frame after the layout the dissector decodes (tagged fields, a newer version's fields):
+			// skipped in frame, and with "+rd" they arrive in a later segment than the fields in front of them
+			body = append(body, 0, 1, 2, 3, 4, 5)
 		}
 		return append(be32(len(body)), body...)
 	}
@@ -277,7 +282,7 @@ func newWorld(proto string, conns []int) *world {
 	if proto == "amqphb" {
 		extName = "amqp"
 	}
-	if proto == "kafkadesc" {
+	if proto == "kafkadesc" || proto == "kafkaslack" {
 		extName = "kafka"
 	}
 	ext := extensions.ExtensionsMap[extName]
